@@ -1036,6 +1036,9 @@ func c20Exec(line string) string {
 			break
 		}
 	}
+	if tag == "a" { // `// X … // G …`: the expectation, read by the specification only
+		srcToks, tabToks = nil, nil
+	}
 	var root ast.Node
 	switch tag {
 	case "p":
